@@ -54,7 +54,9 @@ TRACE_PLANS = {
             ("cancel:small,hints", 4, 80, "async", False)],
     "C10": [("solve:small,base,hints,unknown", 60, 1500, "async,asynchints", False),
             ("solve:midconflict,fan", 40, 800, "async", False),
-            ("history:base,hints", 40, 800, "async", False)],
+            ("history:base,hints", 40, 800, "async", False),
+            # a cancelled solve with requests in flight, then the next solve on the same solver
+            ("cancel:small,hints", 3, 60, "async", False)],
     "C11": [("solve:fan,base,clean", 90, 2000, "async,asynchints", False)],
     "C12": [("cancel:small,base,hints,soft", 7, 150, "async", False),
             ("cancel:midconflict", 3, 60, "async", False)],
